@@ -71,6 +71,9 @@ var corpus = []pat{
 	{`(a|b)\1+c?`, oE, []string{"a", "b", "aa", "bb", "c", "ab"}, "ecma backreference"},
 	{`(?P<word>\w+)-(?P<num>\d+)`, oRE2, []string{"ab", "-", "12", "x-7", " ", "é"}, "re2 named"},
 	{`(?<a>x)|(?<b>y)`, oN | oRTL, []string{"x", "y", "xy", "z"}, "explicitcapture rtl"},
+	// sparse explicit group numbers with groups that take part in some matches only
+	{`(?<5>[a-z]+)?(\d)`, 0, []string{"ab", "7", "...", "x9", " ", "12"}, "sparse optional group"},
+	{`(?<7>a)|(?<3>b)(c)?`, 0, []string{"a", "b", "bc", "c", "ab", " "}, "sparse alternation groups"},
 	// empty matches: every multi-match entry point has to bump along, also over multi-byte runes and right to left
 	{`a*`, 0, []string{"a", "b", "aa", "é", "日", "ba"}, "empty matches"},
 	{`\b|(\d)`, 0, []string{"ab", " ", "1", "é1", "-", "日 2"}, "empty matches boundary"},
